@@ -125,6 +125,8 @@ pub fn run(cfg: &Cfg, out: &mut Out) {
             }
         }
     }
+    // the thin wrappers of konst::maybe_uninit / manually_drop / ptr
+    crate::c01w::run(cfg, out, miri);
     // other unsafe-backed functions, exercised for Miri's benefit (results compared in C02/C07/C08/C20)
     if miri {
         let arr = [1u16, 2, 3, 4, 5];
